@@ -727,6 +727,74 @@ func execMsg(op string, a []string) string {
 		h := f[0]
 		args := &msgArgs{kind: h[0], mode: h[1], ext: unhxOpt(h[2]), recips: h[3], fields: f[1:], warm: true}
 		return dispatchMode(args, true)
+	case "msg.resign":
+		// msg.resign <ext> <msg> | <key> [| <key>…]: a COSE_Sign that was decoded is signed again by its signers and
+		// encoded.  Specification (C04): every Sig_structure the signers were handed is the RFC 9052 structure of the
+		// bytes that then go on the wire (body protected, that signature's protected bucket, external data, payload),
+		// and the re-signed message verifies.
+		f := splitAll(a)
+		ext := unhxOpt(f[0][0])
+		m := &cose.SignMessage[[]byte]{}
+		if err := m.UnmarshalCBOR(unhx(f[0][1])); err != nil {
+			return "err"
+		}
+		ks := keysOf(f[1:])
+		var ss key.Signers
+		var vs key.Verifiers
+		var recs []*recSigner
+		for _, k := range ks {
+			sg, e := k.Signer()
+			if e != nil {
+				return "err key"
+			}
+			v, e := k.Verifier()
+			if e != nil {
+				return "err key"
+			}
+			rs := &recSigner{Signer: sg}
+			recs = append(recs, rs)
+			ss = append(ss, rs)
+			vs = append(vs, v)
+		}
+		if err := m.WithSign(ss, ext); err != nil {
+			return "err sign"
+		}
+		out, err := m.MarshalCBOR()
+		if err != nil {
+			return "err encode"
+		}
+		_, spans := topMembers(out)
+		if len(spans) != 4 {
+			return "RESIGNED-MESSAGE-MALFORMED " + hx(out)
+		}
+		sigs, ok := arrayElems(out[spans[3][0]:spans[3][1]])
+		if !ok || len(sigs) != len(recs) {
+			return "RESIGNED-MESSAGE-SIGNATURE-COUNT " + hx(out)
+		}
+		e := ext
+		if e == nil {
+			e = []byte{}
+		}
+		for i, sg := range sigs {
+			parts, ok := arrayElems(sg)
+			if !ok || len(parts) != 3 || len(recs[i].seen) != 1 {
+				return "RESIGNED-MESSAGE-MALFORMED " + hx(out)
+			}
+			// the structure's members are the message's own items (the library's output is deterministically encoded;
+			// a nil payload is null in both places)
+			want := append([]byte{0x85, 0x69}, "Signature"...)
+			want = append(want, out[spans[0][0]:spans[0][1]]...)
+			want = append(want, parts[0]...)
+			want = append(want, bstrItem(e)...)
+			want = append(want, out[spans[2][0]:spans[2][1]]...)
+			if string(want) != string(recs[i].seen[0]) {
+				return fmt.Sprintf("SIGNED-STRUCTURE-DIFFERS-FROM-WIRE signature=%d signed=%s wire=%s", i, hx(recs[i].seen[0]), hx(want))
+			}
+		}
+		if _, err := cose.VerifySignMessage[[]byte](vs, out, ext); err != nil {
+			return "RESIGNED-MESSAGE-REFUSED " + hx(out)
+		}
+		return "ok"
 	case "msg.consume":
 		f := splitAll(a)
 		h := f[0]
